@@ -128,6 +128,11 @@ class Check:
             if site:
                 print('  at %s' % site)
             print('  key %s' % key)
+        if n_viol:
+            # the check already fails with named violations; a low instance count is then a consequence, not a vacuous pass
+            for e in self.errors:
+                print(e.replace('CHECKER-ERROR:', 'note (floor not reached, violations reported above):'))
+            self.errors = []
         for e in self.errors:
             print(e)
         stale = [k for k in known if k not in seen_known]
